@@ -79,6 +79,9 @@ func cause(p *ReqPlan) string {
 	if len(p.Chunks) > 0 {
 		parts = append(parts, "chunked")
 	}
+	if p.UnknownLength {
+		parts = append(parts, "unknown-length")
+	}
 	sort.Strings(parts)
 	if len(parts) == 0 {
 		return "plain-request"
@@ -145,6 +148,7 @@ func (j *judge) minimise(nodes map[string]*node, v Violation) Violation {
 		if len(src.Chunks) > 0 && np.Body == src.Body {
 			np.Chunks = src.Chunks
 		}
+		np.UnknownLength, np.CancelledRequest = src.UnknownLength, src.CancelledRequest
 		if src.Expect.OpID != "" {
 			np.Expect.OpID = src.Expect.OpID
 		}
@@ -210,6 +214,12 @@ func (j *judge) minimise(nodes map[string]*node, v Violation) Violation {
 	if len(cur.Chunks) > 0 {
 		np := *cur
 		np.Chunks = nil
+		np.ID = pl.nextID()
+		try(&np)
+	}
+	if cur.UnknownLength {
+		np := *cur
+		np.UnknownLength = false
 		np.ID = pl.nextID()
 		try(&np)
 	}
